@@ -346,6 +346,7 @@ func runC10(cx *CheckCtx) {
 			cx.decide(okN && okF, "ownership-change", "nns.Register/Transfer/args", "Transfer(previous owner | nil, owner, 1, name)", "the Transfer notification of a registration carries "+termList(na)+": the previous owner is not the stored owner whose balance was released", notif.Where(w))
 			checkNotifyEquiv(cx, a, "nns.Register/Transfer", notif, namePut)
 			// release before credit (same owner re-registering an expired name)
+			callbackLast(cx, a, "nns.Register")
 			cx.decide(a.holdsAt(relDel.In, -a.eLit(credPut)), "ownership-change", "nns.Register/release-before-credit", "the old owner's token index entry is released before the new owner's is written", "the new owner is credited before the old owner is released: when both are the same account the token index entry is written and then deleted, tokensOf loses the name", relDel.Where(w))
 			// availability boundary is D6; expiry check on the existing record before takeover
 			okTake := false
@@ -410,6 +411,7 @@ func runC10(cx *CheckCtx) {
 					}
 				}
 			}
+			callbackLast(cx, a, "nns.Transfer")
 			cx.decide(okT, "ownership-change", "nns.Transfer/Transfer/once", "one notification on every path returning true, no effect on paths returning false", "a transfer can succeed without (or fail with) its notification/effects", notif.Where(w))
 		}
 	}
@@ -599,6 +601,7 @@ func checkExpiryBoundaries(cx *CheckCtx) {
 
 func runC11(cx *CheckCtx) {
 	w := cx.W
+	nnsTransferResetsAdmin(cx, "transfer-resets-admin")
 	c := cx.contract("nns")
 	if c == nil {
 		return
@@ -973,6 +976,15 @@ func runC12(cx *CheckCtx) {
 			}
 		}
 		cx.decide(okN, "redirect-budget", "nns.resolve/negative", "a negative budget cannot return", "resolve returns with a negative redirect budget: chains of any length (and cycles) are followed", w.pos(fn.Pos()))
+		// own records first: the alias is followed only after the scan of the name's own records
+		// is exhausted (the recursive call is not inside the record loop)
+		okOwn := nRec == 1
+		for _, s := range a.Sites(func(s *Site) bool { return !s.Inlined && s.Callee == resolveName }) {
+			if siteInLoop(s) {
+				okOwn = false
+			}
+		}
+		cx.decide(okOwn, "resolve-order", "nns.resolve/own-first", "the CNAME is followed after the loop over the name's own records", "resolve follows the CNAME from inside the loop over the name's records: records reached through the alias are returned before (or between) the name's own", w.pos(fn.Pos()))
 		cx.decide(okR && nRec == 1, "redirect-budget", "nns.resolve/decrement", "the recursive call passes budget − 1", "the redirect budget is not decremented by one per CNAME link", w.pos(fn.Pos()))
 		// follows the CNAME only for non-CNAME queries, returns accumulated results: value-level, not checked
 	}
@@ -1189,6 +1201,116 @@ func runC18(cx *CheckCtx) {
 					}
 				}
 			}
+			// the last byte: an accepted fragment ends in [a-z0-9] (the result may be true only then)
+			okLast := true
+			for _, ex := range a.Exits() {
+				if len(ex.Results) != 1 {
+					continue
+				}
+				res := ex.Results[0]
+				if bv, isC := res.BoolConst(); isC && !bv {
+					continue
+				}
+				last := tb.mk("index", "", 0, v, tb.binop(token.SUB, a.litLen(v), tb.constInt(1), intType))
+				nb := []int32{}
+				if _, isC := res.BoolConst(); !isC {
+					nb = append(nb, -a.litB(res))
+				}
+				q1 := append(append([]int32{}, nb...), -a.litLtC(last, '0'))
+				q2 := append(append([]int32{}, nb...), a.litLtC(last, 'z'+1))
+				q3 := append(append([]int32{}, nb...), a.litLtC(last, '9'+1), -a.litLtC(last, 'a'))
+				if !(a.holdsAt(ex.State, q1...) && a.holdsAt(ex.State, q2...) && a.holdsAt(ex.State, q3...)) {
+					okLast = false
+				}
+			}
+			// the first byte of a label is in [a-z0-9] (a root's is a letter, below)
+			if !root {
+				c0 := tb.mk("index", "", 0, v, tb.constInt(0))
+				for _, ex := range a.Exits() {
+					if len(ex.Results) != 1 {
+						continue
+					}
+					res := ex.Results[0]
+					if bv, isC := res.BoolConst(); isC && !bv {
+						continue
+					}
+					nb := []int32{}
+					if _, isC := res.BoolConst(); !isC {
+						nb = append(nb, -a.litB(res))
+					}
+					if !(a.holdsAt(ex.State, append(append([]int32{}, nb...), -a.litLtC(c0, '0'))...) && a.holdsAt(ex.State, append(append([]int32{}, nb...), a.litLtC(c0, 'z'+1))...) &&
+						a.holdsAt(ex.State, append(append([]int32{}, nb...), a.litLtC(c0, '9'+1), -a.litLtC(c0, 'a'))...)) {
+						okLast = false
+					}
+				}
+			}
+			// the bytes in between: one loop from 1 while i < len−1, step 1, left only through its header
+			// or into a rejection, and an iteration is completed only with v[i] == '-' or v[i] in [a-z0-9]
+			okMid, whyMid := false, "no loop over the inner bytes"
+			for _, b := range fn.Blocks {
+				if !isLoopHeader(b) {
+					continue
+				}
+				ifi, isIf := b.Instrs[len(b.Instrs)-1].(*ssa.If)
+				if !isIf {
+					continue
+				}
+				ct := tb.Term(tb.root, ifi.Cond)
+				if ct.Op != "bin" || ct.Name != "<" || len(ct.Args) != 2 || ct.Args[0].Op != "phi" {
+					continue
+				}
+				i := ct.Args[0]
+				init, step := false, false
+				for _, al := range tb.Alts(i) {
+					if n, isC := al.IntConst(); isC && n == 1 {
+						init = true
+					} else if al == tb.binop(token.ADD, i, tb.constInt(1), intType) {
+						step = true
+					} else {
+						init = false
+					}
+				}
+				if !(init && step && ct.Args[1] == tb.binop(token.SUB, a.litLen(v), tb.constInt(1), intType)) {
+					whyMid = "the loop over the inner bytes does not run over 1 … len−2 (" + ct.pretty() + ")"
+					continue
+				}
+				okMid, whyMid = true, ""
+				x := tb.mk("index", "", 0, v, i)
+				for _, p := range b.Preds {
+					if !b.Dominates(p) {
+						continue
+					}
+					st := a.edgeState(tb.root, p, b)
+					if st == nil {
+						continue
+					}
+					dash := a.litEqC(x, '-')
+					if !(a.holdsAt(st, dash, -a.litLtC(x, '0')) && a.holdsAt(st, dash, a.litLtC(x, 'z'+1)) && a.holdsAt(st, dash, a.litLtC(x, '9'+1), -a.litLtC(x, 'a'))) {
+						okMid, whyMid = false, "an iteration is completed for a byte outside [a-z0-9-]"
+					}
+				}
+				for _, e := range loopExits(b) {
+					if e.from == b {
+						continue
+					}
+					if r, isR := e.to.Instrs[len(e.to.Instrs)-1].(*ssa.Return); isR && len(r.Results) == 1 {
+						if c, isC := r.Results[0].(*ssa.Const); isC && c.Value != nil && !constant.BoolVal(c.Value) {
+							continue
+						}
+					}
+					okMid, whyMid = false, "the loop can be left early without rejecting"
+				}
+			}
+			mkey := "nns.checkFragment/label/inner"
+			if root {
+				mkey = "nns.checkFragment/root/inner"
+			}
+			cx.decide(okMid, "limits", mkey, "every byte between the first and the last is '-' or in [a-z0-9]", "inner bytes of a fragment are not all checked against [a-z0-9-]: "+whyMid, w.pos(fn.Pos()))
+			lkey := "nns.checkFragment/label/last"
+			if root {
+				lkey = "nns.checkFragment/root/last"
+			}
+			cx.decide(okLast, "limits", lkey, "accepts only fragments whose first and last bytes are in [a-z0-9]", "a fragment whose first or last byte is outside [a-z0-9] can be accepted (upper case, '_', '-', …)", w.pos(fn.Pos()))
 			key := "nns.checkFragment/label"
 			if root {
 				key = "nns.checkFragment/root"
@@ -1367,4 +1489,62 @@ func validatedAt(a *Analysis, st *CNF, nm *Term, safeName string) bool {
 		}
 	}
 	return false
+}
+
+// callbackLast: every store of the method happens before control is handed to
+// another contract (the receiver's onNEP11Payment): at each store site the
+// call-out has not executed yet. A callback that runs first re-enters NNS on
+// the old state and the outer call then overwrites what the inner one did.
+func callbackLast(cx *CheckCtx, a *Analysis, key string) {
+	var outs []*Site
+	for _, s := range a.RealEffects() {
+		if s.Effect == "call" && s.Callee == "contract.Call" {
+			outs = append(outs, s)
+		}
+	}
+	ok, where := true, ""
+	for _, e := range a.RealEffects() {
+		if !isStore(e) {
+			continue
+		}
+		for _, o := range outs {
+			if !a.holdsAt(e.In, -a.eLit(o)) {
+				ok, where = false, e.Where(cx.W)
+			}
+		}
+	}
+	cx.decide(ok, "callback-last", key, fmt.Sprintf("%d call-outs, each after every store of the method", len(outs)), key+" hands control to another contract before its own stores are done ("+where+" can follow the call-out): a receiver that calls back sees the old owner, and the ledger ends up inconsistent with the record", where)
+}
+
+// nnsTransferResetsAdmin: the record stored by Transfer is the loaded one with
+// Owner := to and Admin := nil (C10 ownership-change; C11 re-runs it: a former
+// admin must lose its rights with the transfer).
+func nnsTransferResetsAdmin(cx *CheckCtx, rule string) {
+	m := cx.method("nns", "Transfer")
+	if m == nil {
+		return
+	}
+	a := cx.run(m)
+	tb := a.tb
+	to, tok := paramTerm(tb, m, "to"), paramTerm(tb, m, "tokenID")
+	nkey := tb.cat(tb.constBytes(pfxName), tb.mk("call", "native/crypto.Ripemd160", 0, tok))
+	var namePut *Site
+	for _, s := range a.RealEffects() {
+		if s.Effect == "put" && s.Args[1] == nkey {
+			namePut = s
+		}
+	}
+	if namePut == nil {
+		cx.violated(rule, "nns.Transfer/record", "Transfer no longer rewrites the name record", cx.W.pos(m.Fn.Pos()))
+		return
+	}
+	v := unserialize(a.canonAt(namePut, namePut.Args[2]))
+	X := tb.field(v, "Name")
+	ok := X.Op == "field" && X.Name == "Name"
+	if ok {
+		rec := X.Args[0]
+		k, isRec := recordOf(tb, rec)
+		ok = isRec && k == nkey && tb.field(v, "Owner") == to && tb.field(v, "Admin").IsNil()
+	}
+	cx.decide(ok, rule, "nns.Transfer/record", "stores the loaded record with Owner := to, Admin := nil", "transfer stores "+v.pretty()+": the admin survives the transfer and keeps changing the new owner's name", namePut.Where(cx.W))
 }
